@@ -64,12 +64,19 @@ func (d *DatasourceExecuting) Run(ctx ExecutionContext, produce ProduceFn, metaS
 		for i, columnIndex := range indicesToRead {
 			str := row[columnIndex]
 			if str == "" {
+				if octosql.Null.Is(d.fields[i].Type) != octosql.TypeRelationIs {
+					return fmt.Errorf("empty value in column '%s' of non-nullable inferred type %s", d.fields[i].Name, d.fields[i].Type)
+				}
 				values[i] = octosql.NewNull()
 				continue
 			}
 
 			if octosql.Int.Is(d.fields[i].Type) == octosql.TypeRelationIs {
 				integer, err := fastfloat.ParseInt64(str)
+				if err != nil {
+					// Schema inference uses strconv, which accepts more than fastfloat (i.e. a leading plus sign).
+					integer, err = strconv.ParseInt(str, 10, 64)
+				}
 				if err == nil {
 					values[i] = octosql.NewInt(integer)
 					continue
@@ -78,6 +85,10 @@ func (d *DatasourceExecuting) Run(ctx ExecutionContext, produce ProduceFn, metaS
 
 			if octosql.Float.Is(d.fields[i].Type) == octosql.TypeRelationIs {
 				float, err := fastfloat.Parse(str)
+				if err != nil {
+					// Schema inference uses strconv, which accepts more than fastfloat (i.e. "+1.5", ".5", "5.", hexadecimal floats).
+					float, err = strconv.ParseFloat(str, 64)
+				}
 				if err == nil {
 					values[i] = octosql.NewFloat(float)
 					continue
@@ -100,6 +111,9 @@ func (d *DatasourceExecuting) Run(ctx ExecutionContext, produce ProduceFn, metaS
 				}
 			}
 
+			if octosql.String.Is(d.fields[i].Type) != octosql.TypeRelationIs {
+				return fmt.Errorf("value '%s' in column '%s' doesn't match its inferred type %s", str, d.fields[i].Name, d.fields[i].Type)
+			}
 			values[i] = octosql.NewString(str)
 		}
 
